@@ -82,7 +82,16 @@ func (b *Body) Read(p []byte) (int, error) {
 // yieldEvery reads; it returns what was read and the terminating error
 // (nil for a clean EOF).
 func ReadAllSized(r io.Reader, sizes []int, yieldEvery int, label string) ([]byte, error) {
+	return ReadAllSizedHint(r, sizes, yieldEvery, label, 0)
+}
+
+// ReadAllSizedHint is ReadAllSized with the expected body length as a capacity
+// hint (multi-MiB bodies: no repeated growth of the result).
+func ReadAllSizedHint(r io.Reader, sizes []int, yieldEvery int, label string, expect int) ([]byte, error) {
 	var out []byte
+	if expect > 1<<16 {
+		out = make([]byte, 0, expect+1)
+	}
 	i, empty := 0, 0
 	max := 32 * 1024
 	for _, s := range sizes {
